@@ -474,3 +474,252 @@ func c14LimitStrict(e *Env) {
 	}
 	r.Floor(rule, n, 4, "too-large tests in the HTTP/1 body readers")
 }
+
+// C20.instancememo — what the validator remembers while ranging is remembered per instance.
+func c20InstanceMemo(e *Env) {
+	const rule = "C20.instancememo"
+	w, r := e.W, e.R
+	r.Explainf("C20.instancememo: validator.Validate walks every expression of a value with TagExpr.Range; for nested slices and maps the callback is invoked once per element with the SAME selectors but a different struct instance (eh.TagExpr()). A map that lives outside the callback and is read or written inside it (the `parent field is nil, skip its expressions` memo) must therefore be indexed by a key that identifies the instance: the key expression — followed through the local it is held in — contains eh.TagExpr() or eh.Path(). A memo keyed by the selector alone lets a nil pointer in one slice element suppress the failures of all other elements: an invalid value is accepted.")
+	n := 0
+	for _, fi := range declaredNonTest(w) {
+		if fi.Decl.Body == nil || w.RelPkg(fi.Obj.Pkg()) != "internal/tagexpr/validator" {
+			continue
+		}
+		info := fi.Pkg.TypesInfo
+		fname := w.FuncName(fi.Obj)
+		ast.Inspect(fi.Decl.Body, func(nd ast.Node) bool {
+			lit, ok := nd.(*ast.FuncLit)
+			if !ok || lit.Type.Params == nil || len(lit.Type.Params.List) != 1 || len(lit.Type.Params.List[0].Names) != 1 {
+				return true
+			}
+			hv, _ := info.Defs[lit.Type.Params.List[0].Names[0]].(*types.Var)
+			if hv == nil {
+				return true
+			}
+			pt, ok := hv.Type().(*types.Pointer)
+			if !ok {
+				return true
+			}
+			if nt, ok := pt.Elem().(*types.Named); !ok || nt.Obj().Name() != "ExprHandler" {
+				return true
+			}
+			instance := func(x ast.Node) bool {
+				hit := false
+				ast.Inspect(x, func(m ast.Node) bool {
+					if c, ok := m.(*ast.CallExpr); ok {
+						if se, ok := unparen(c.Fun).(*ast.SelectorExpr); ok && usedVar(info, se.X) == hv && (se.Sel.Name == "TagExpr" || se.Sel.Name == "Path") {
+							hit = true
+						}
+					}
+					return true
+				})
+				return hit
+			}
+			seen := map[*types.Var]bool{}
+			ast.Inspect(lit.Body, func(m ast.Node) bool {
+				ix, ok := m.(*ast.IndexExpr)
+				if !ok {
+					return true
+				}
+				mv := usedVar(info, ix.X)
+				if mv == nil || mv.IsField() || isPkgLevel(mv) {
+					return true
+				}
+				if _, isMap := mv.Type().Underlying().(*types.Map); !isMap {
+					return true
+				}
+				// declared outside the callback
+				if mv.Pos() >= lit.Pos() && mv.Pos() <= lit.End() {
+					return true
+				}
+				good := instance(ix.Index)
+				if kv := usedVar(info, ix.Index); kv != nil && !kv.IsField() && !good {
+					ast.Inspect(lit.Body, func(q ast.Node) bool {
+						if as, ok := q.(*ast.AssignStmt); ok && len(as.Lhs) == len(as.Rhs) {
+							for i, l := range as.Lhs {
+								if id, ok := l.(*ast.Ident); ok && (info.Defs[id] == types.Object(kv) || info.Uses[id] == types.Object(kv)) && instance(as.Rhs[i]) {
+									good = true
+								}
+							}
+						}
+						return true
+					})
+				}
+				if seen[mv] && good {
+					return true
+				}
+				seen[mv] = true
+				n++
+				r.Check(good, rule, fmt.Sprintf("%s:memo-%s#%d", fname, mv.Name(), n), w.Pos(ix.Pos()), "a memo kept across the Range callback is keyed by the struct instance",
+					"`"+types.ExprString(ix)+"` indexes "+mv.Name()+" (declared outside the callback) by a key that does not contain eh.TagExpr() or eh.Path(): the elements of a nested slice share their selectors, so what was remembered for one element (`parent is nil`) is applied to the others and their failing expressions are skipped")
+				return true
+			})
+			return true
+		})
+	}
+	r.Floor(rule, n, 1, "maps shared across the Range callback of the validator")
+}
+
+// C07.fresh — a recycled URI starts without the previous request's path: the reset methods of
+// URI clear `path` and `pathOriginal` on every path (the parser's control-byte exit returns
+// right after Reset, without going through normalizePath).
+func c07Fresh(e *Env) {
+	resetObligations(e, "C07.fresh", func(tg resetTarget, field string) bool {
+		if tg.Typ != "URI" {
+			return false
+		}
+		return field == "" || field == "path" || field == "pathOriginal"
+	})
+}
+
+// C04.readfromeof — an io.ReaderFrom does not report the source's io.EOF.
+func c04ReadFromEOF(e *Env) {
+	const rule = "C04.readfromeof"
+	w, r := e.W, e.R
+	r.Explainf("C04.readfromeof: io.ReaderFrom reads until EOF and returns a nil error for it; the body writers treat any error of the copy as a failed response and close the connection (after the complete, correct message has already been sent, without `Connection: close`). In every `ReadFrom(io.Reader) (int64, error)` method of package network/standard that tests its error result with `== io.EOF`, each way through the body of that test assigns the error result anew (`err = nil`, `err = c.Flush()`) — an arm that only flushes and falls through returns io.EOF to the caller: the response is on the wire, the server drops the connection and the client's next request is never answered.")
+	n := 0
+	for _, fi := range declaredNonTest(w) {
+		if fi.Decl.Body == nil || w.RelPkg(fi.Obj.Pkg()) != "pkg/network/standard" || fi.Obj.Name() != "ReadFrom" {
+			continue
+		}
+		info := fi.Pkg.TypesInfo
+		sig := fi.Obj.Type().(*types.Signature)
+		if sig.Results().Len() != 2 {
+			continue
+		}
+		errV := sig.Results().At(1)
+		if errV.Name() == "" {
+			continue
+		}
+		fname := w.FuncName(fi.Obj)
+		var covers func(list []ast.Stmt) bool
+		covers = func(list []ast.Stmt) bool {
+			for _, s := range list {
+				switch x := s.(type) {
+				case *ast.AssignStmt:
+					for _, l := range x.Lhs {
+						if usedVar(info, l) == errV {
+							return true
+						}
+					}
+				case *ast.ReturnStmt:
+					if len(x.Results) == 2 && usedVar(info, x.Results[1]) != errV {
+						return true
+					}
+				case *ast.IfStmt:
+					if x.Else != nil {
+						a := covers(x.Body.List)
+						b := false
+						switch el := x.Else.(type) {
+						case *ast.BlockStmt:
+							b = covers(el.List)
+						case *ast.IfStmt:
+							b = covers([]ast.Stmt{el})
+						}
+						if a && b {
+							return true
+						}
+					}
+				}
+			}
+			return false
+		}
+		ast.Inspect(fi.Decl.Body, func(nd ast.Node) bool {
+			is, ok := nd.(*ast.IfStmt)
+			if !ok {
+				return true
+			}
+			be, ok := unparen(is.Cond).(*ast.BinaryExpr)
+			if !ok || be.Op != token.EQL || usedVar(info, be.X) != errV {
+				return true
+			}
+			if v := usedVar(info, be.Y); v == nil || v.Pkg() == nil || v.Pkg().Path() != "io" || v.Name() != "EOF" {
+				return true
+			}
+			n++
+			r.Check(covers(is.Body.List), rule, fmt.Sprintf("%s:eof-branch#%d", fname, n), w.Pos(is.Pos()), "the source's io.EOF is replaced on every way through its branch",
+				"a way through `if "+errV.Name()+" == io.EOF { … }` leaves "+errV.Name()+" untouched: ReadFrom returns io.EOF although the copy succeeded, the body writer reports a failed response and the connection is closed after a complete message was sent")
+			return true
+		})
+	}
+	r.Floor(rule, n, 1, "io.EOF tests in ReadFrom of network/standard")
+}
+
+// C04.emptychunk — only the end of the body is a zero-length chunk.
+func c04EmptyChunk(e *Env) {
+	const rule = "C04.emptychunk"
+	w, r := e.W, e.R
+	r.Explainf("C04.emptychunk: in chunked framing a chunk of size 0 IS the end-of-body marker. ext.WriteChunk writes whatever it is given, so every call in non-test code either writes the terminating chunk on purpose (argument nil or `buf[:0]`) or passes data that an earlier statement on the way has shown to be non-empty (`if len(p) == 0 { return … }`, or `if n == 0 { … }` for `buf[:n]`, the branch leaving). An unguarded call with a caller-supplied slice lets an empty Write (io.Copy with a zero-length read, Fprint of \"\") put `0\\r\\n` in the middle of the body: the client takes the body as finished and the rest as garbage in place of the trailer.")
+	wc := w.Func("pkg/protocol/http1/ext", "", "WriteChunk")
+	if wc == nil {
+		r.Anchor(rule, "ext.WriteChunk")
+		return
+	}
+	n := 0
+	for _, fi := range declaredNonTest(w) {
+		if fi.Decl.Body == nil || !w.InModule(fi.Obj.Pkg()) || fi == wc {
+			continue
+		}
+		info := fi.Pkg.TypesInfo
+		par := parents(fi.Decl)
+		fname := w.FuncName(fi.Obj)
+		k := 0
+		ast.Inspect(fi.Decl.Body, func(nd ast.Node) bool {
+			c, ok := nd.(*ast.CallExpr)
+			if !ok || calleeOf(info, c) != wc.Obj || len(c.Args) < 2 {
+				return true
+			}
+			k++
+			n++
+			key := fmt.Sprintf("%s:WriteChunk#%d", fname, k)
+			arg := unparen(c.Args[1])
+			if tv, ok := info.Types[arg]; ok && tv.IsNil() {
+				r.OKd(rule, key, w.Pos(c.Pos()), "a data chunk is known to be non-empty", "the terminating chunk (nil)")
+				return true
+			}
+			var lenVar *types.Var
+			if se, ok := arg.(*ast.SliceExpr); ok && se.High != nil {
+				if z, isC := constInt(info, se.High); isC && z == 0 {
+					r.OKd(rule, key, w.Pos(c.Pos()), "a data chunk is known to be non-empty", "the terminating chunk (buf[:0])")
+					return true
+				}
+				lenVar = usedVar(info, se.High)
+			}
+			dataVar := usedVar(info, arg)
+			var stmt ast.Node = c
+			for par[stmt] != nil {
+				if _, isStmt := stmt.(ast.Stmt); isStmt {
+					break
+				}
+				stmt = par[stmt]
+			}
+			good := false
+			for _, s := range precedingStmts(par, stmt) {
+				is, ok := s.(*ast.IfStmt)
+				if !ok || !blockLeaves(is.Body) {
+					continue
+				}
+				for _, p := range splitOp(is.Cond, token.LOR) {
+					be, ok := p.(*ast.BinaryExpr)
+					if !ok || (be.Op != token.EQL && be.Op != token.LEQ) {
+						continue
+					}
+					if z, isC := constInt(info, be.Y); !isC || z != 0 {
+						continue
+					}
+					x := unparen(be.X)
+					if lc, ok := x.(*ast.CallExpr); ok && isBuiltin(info, lc, "len") && len(lc.Args) == 1 && dataVar != nil && usedVar(info, lc.Args[0]) == dataVar {
+						good = true
+					}
+					if lenVar != nil && usedVar(info, x) == lenVar {
+						good = true
+					}
+				}
+			}
+			r.Check(good, rule, key, w.Pos(c.Pos()), "a data chunk is known to be non-empty",
+				"`"+types.ExprString(c)+"` can be reached with an empty slice: WriteChunk then emits `0\\r\\n`, the end-of-body marker, in the middle of the body")
+			return true
+		})
+	}
+	r.Floor(rule, n, 3, "calls of ext.WriteChunk")
+}
